@@ -36,7 +36,9 @@ def selection_case(draw):
         lst = list(draw(st.permutations(lst)))
     frac = st.sampled_from([0.0, 1.0, 1.0, 0.999999, 1.000001, 0.5, 2.0]) | st.floats(0, 3)
     fr = draw(st.lists(frac, min_size=len(isos), max_size=len(isos)))
-    return dict(kind="stub", list=lst, fractions=fr)
+    # any column of the input table can be overridden from the scenario file for every country of the run - the population too
+    pop = draw(st.none() | st.none() | st.sampled_from([5000000, 10001, 9999999999]) | st.integers(10001, 9 * 10**9))
+    return dict(kind="stub", list=lst, fractions=fr, population=pop)
 
 
 def expected_selection(lst, isos):
@@ -61,13 +63,20 @@ def run_stub(ctx, c):
     calls = []
     orig = ScenarioRunnerNoTrade.run_optimizer_for_country
 
+    ran_with = {}
+
     def stub(self, country_data, scenario_option, *a, **k):
         calls.append(country_data["iso3"])
+        ran_with[country_data["iso3"]] = float(country_data["population"])
         return fr[country_data["iso3"]], "stub", ("result-of", country_data["iso3"])
     ScenarioRunnerNoTrade.run_optimizer_for_country = stub
     lst = list(c["list"])
     snap = list(lst)
     opts = dict(model.BASELINE_COUNTRY)
+    if c.get("population") is not None:
+        opts["population"] = c["population"]
+        pops = {i: float(c["population"]) for i in pops}
+        ctx.event("population_overridden")
     try:
         with quiet():
             world, net_pop, net_fed, results = ScenarioRunnerNoTrade().run_model_no_trade(
@@ -84,6 +93,9 @@ def run_stub(ctx, c):
         extra, missing = sorted(set(calls) - set(sel)), sorted(set(sel) - set(calls))
         dup = sorted({x for x in calls if calls.count(x) > 1})
         ctx.fail("wrong-countries-run", "list %r: ran but not selected %s, selected but not run %s, run twice %s" % (c["list"][:8], extra[:5], missing[:5], dup[:5]), c)
+    off = [i for i in sel if i in ran_with and ran_with[i] != pops[i]]
+    if off:
+        ctx.fail("country-run-with-another-population-than-configured", "%s run with %r, configured %r" % (off[0], ran_with[off[0]], pops[off[0]]), c)
     exp_pop = float(sum(pops[i] for i in sel))
     exp_fed = float(sum(pops[i] * min(1.0, fr[i]) for i in sel))
     if abs(net_pop - exp_pop) > 1e-12 * max(1.0, exp_pop):
